@@ -95,7 +95,8 @@ Section ToMs.
         end
     end.
 
-  Definition to_ms_events (g0 : graph) (N0 : num) : res (nat * list msev) :=
+  (* everything up to the sorted event list, times still in generations *)
+  Definition to_ms_unscaled (g0 : graph) (N0 : num) : res (nat * list msev) :=
     g <- in_generations g0 ;;
     let names := map d_name (g_demes g) in
     let n := List.length (g_demes g) in
@@ -135,7 +136,12 @@ Section ToMs.
                    i <- id_of names (m_dst m) ;; j <- id_of names (m_src m) ;;
                    e <- mk_m (m_end m) i j (nmul n4N0 (m_rate m)) ;; Ok (acc ++ [e]))
                 (g_migs g) [] ;;
-    let evs := sort_events (fst sz ++ fst sj ++ off ++ on) in
-    evs' <- mapM (fun e => t <- pdiv (ev_time e) n4N0 ;; Ok (set_time e t)) evs ;;
-    Ok (n, evs').
+    Ok (n, sort_events (fst sz ++ fst sj ++ off ++ on)).
+
+  (* ... then every time divided by 4*N0 *)
+  Definition to_ms_events (g0 : graph) (N0 : num) : res (nat * list msev) :=
+    r <- to_ms_unscaled g0 N0 ;;
+    let n4N0 := nmul n4 N0 in
+    evs' <- mapM (fun e => t <- pdiv (ev_time e) n4N0 ;; Ok (set_time e t)) (snd r) ;;
+    Ok (fst r, evs').
 End ToMs.
